@@ -73,7 +73,7 @@ func ruleBuildersStoreAll(c *core.Ctx, rule string) {
 			st := mapStores(g, ranges)
 			if len(st) != 1 {
 				o.Count(1)
-				o.Fail("expected one store into the grouping table, found %d", len(st))
+				o.Unrec("expected one store into the grouping table, found %d", len(st))
 				return
 			}
 			o.At(fn.Site(st[0].Stmt, "entry grouped"))
@@ -227,7 +227,7 @@ func ruleCMapBounded(c *core.Ctx) {
 			n++
 			o.Require(strings.Contains(src, "MaxCMapMappings") || strings.Contains(src, "maxMappings") || strings.Contains(src, ".all("), "%s has no MaxCMapMappings bound", fn.Key)
 		}
-		o.Require(n >= 2, "expected All methods for CMap and ToUnicode files, found %d", n)
+		o.Shape(n >= 2, "expected All methods for CMap and ToUnicode files, found %d", n)
 	})
 }
 
@@ -322,7 +322,7 @@ func ruleSimpleEncode(c *core.Ctx) {
 				}
 			}
 		}
-		o.Require(n >= 2, "expected at least two places that choose a code (exact base-encoding match, best score), found %d", n)
+		o.Shape(n >= 2, "expected at least two places that choose a code (exact base-encoding match, best score), found %d", n)
 		src := c.Prog.Src(fn.Decl.Body)
 		o.Shape(strings.HasPrefix(src, "{key:=gidText{gid:gid,text:text}if_,ok:=t.code[key];ok{return0,ErrDuplicateCode}"), "a pair that already has a code must be rejected first")
 		o.Shape(strings.Contains(src, "iflen(t.info)>=256{t.err=ErrOverflowreturn0,ErrOverflow}"), "the table-full exit must precede the search (it guarantees a free code exists)")
@@ -434,7 +434,7 @@ func ruleRangeIndexStep(c *core.Ctx) {
 			core.Undecided("update %s could not be tabulated: %s", c.Prog.Src(rhs), reason)
 		}
 		o.Count(cnt)
-		o.Require(cnt > 100, "only %d combinations tabulated", cnt)
+		o.Shape(cnt > 100, "only %d combinations tabulated", cnt)
 	})
 }
 
@@ -475,7 +475,7 @@ func ruleIncrementBase(c *core.Ctx) {
 			}
 		}
 		// (the three readers may share one helper that makes the call)
-		o.Require(n >= 1, "no reader of a ToUnicode range calls nextString any more (found %d calls)", n)
+		o.Shape(n >= 1, "no reader of a ToUnicode range calls nextString any more (found %d calls)", n)
 	})
 }
 
@@ -910,7 +910,7 @@ func ruleRectangularRanges(c *core.Ctx) {
 				return true
 			})
 		}
-		o.Require(n >= 2, "expected at least two callers of rangeIndex, found %d", n)
+		o.Shape(n >= 2, "expected at least two callers of rangeIndex, found %d", n)
 	})
 }
 
@@ -959,7 +959,7 @@ func ruleRangePositionIndex(c *core.Ctx) {
 				return true
 			})
 		}
-		o.Require(n >= 3, "expected at least three loops over codesInRange, found %d", n)
+		o.Shape(n >= 3, "expected at least three loops over codesInRange, found %d", n)
 	})
 	c.Check("C13-R15", cmapPkg+".(*File).LookupCID/presence", "whether a child CMap has an entry for a code is not decided by comparing the CID with zero", func(o *core.Ob) {
 		pkg := c.Prog.Pkg(cmapPkg)
@@ -1061,7 +1061,7 @@ func ruleWidthsTrimming(c *core.Ctx) {
 				o.FailAt(fn.Site(inc, ""), "%s: a code is dropped from /Widths although it is mapped and its width differs from the default (%s): it reads back with /MissingWidth", c.Prog.Pos(inc.Pos()), counter)
 			}
 		}
-		o.Require(n == 2, "expected the two trimming loops (LastChar, FirstChar), found %d", n)
+		o.Shape(n == 2, "expected the two trimming loops (LastChar, FirstChar), found %d", n)
 	})
 	// composite UTF-8 encoder: occupancy of a code is tested under the key it is stored under
 	const ce = "pdf/font/encoding/cidenc"
